@@ -115,7 +115,7 @@ Proof.
   repeat (apply andb_true_intro; split); try reflexivity.
   - unfold plan_pre. simpl. rewrite forallb_app. apply andb_true_intro. split.
     + destruct (is_link fs (sc_req sc)); reflexivity.
-    + simpl. rewrite Hd. simpl. apply forallb_map_const. reflexivity.
+    + simpl. rewrite Hd. simpl. apply forallb_map_const. intros h. destruct (has_nul (tpath tens h)); reflexivity.
   - rewrite Hf. reflexivity.
   - eapply forallb_impl; [apply nofs_safe | apply tensors_nofs].
   - unfold plan_tail. rewrite forallb_app. apply andb_true_intro. split.
